@@ -13,6 +13,7 @@ import Otel.C01.Stuck
 import Otel.C01.Timeout
 import Otel.C01.Fifo
 import Otel.C01.Work
+import Otel.C01.HistF47
 namespace Otel.C01
 
 variable {cap maxB : Nat} {blocking : Bool}
@@ -154,7 +155,7 @@ called: the call that won `stopOnce` (`sdRetOk`, `sdPre`) or any of the calls th
 waited in `sync.Once.Do` (`sds`). A Shutdown context that expires is the label `sdTimeout` (only the winning call can
 return an error: the others wait in `Once.Do`, which has no context); the theorems about nil returns below carry the
 hypothesis `s.sdRetErr = false` (the winning call's context has not expired) — without it they fail for the waiting
-callers: known finding F44, `bsp_shutdown_timeout_late_nil_witness`. -/
+callers: known finding F47, `bsp_shutdown_timeout_late_nil_witness`. -/
 def ShutdownReturnedNil (s : St) (pre : List Nat) : Prop :=
   (s.sdRetOk = true ∧ pre = s.sdPre) ∨ ∃ c ∈ s.sds, c.ret = true ∧ pre = c.pre
 
@@ -566,7 +567,8 @@ theorem hist_f41_never_hides_first_call_loss (bl : Bool) (d : Nat) (c : Spec.Sca
   refine ⟨h1, h2, ⟨pre, h3, h4⟩, ?_⟩
   intro hin
   subst h1
-  simp [Spec.scanStep, hin, h2, h3, h4]
+  simp only [Spec.scanStep, Bool.not_true, Bool.false_eq_true, if_false]
+  split <;> simp [hin, h2, h3, h4]
 
 /-- hangs at the level of histories — a history of the model contains no hang event (a call that does not return
 simply has no return event): the oracle's judgement of hung calls (`Spec.histHangs`, the F42 classification of the
@@ -721,14 +723,14 @@ theorem bsp_shutdown_drain_done (hpos : 1 ≤ maxB) (s : St) (h : Reachable cap 
     all_goals (try subst hs)
     all_goals (first | exact ⟨rfl, hshut⟩ | simp_all))
 
-/-- the schedule of F44: span 1 is queued, a Shutdown call wins `stopOnce`, stores `stopped`, and its context ends at
+/-- the schedule of F47: span 1 is queued, a Shutdown call wins `stopOnce`, stores `stopped`, and its context ends at
 once (`sdTimeout`: it returns ctx.Err()); a second Shutdown call finds the once done and returns nil immediately; only
 then does the goroutine of the first call close `stopCh`, and the worker exports span 1. -/
 def timeoutLateNilSchedule : List Lbl :=
   [.accept 1, .send 1, .sdCall, .sdStore, .sdTimeout, .sdCallLate 1, .sdReturnLate 1,
    .sdClose, .wStop, .wRecv, .wAppend, .wExportStart]
 
-/-- known finding F44 (witness): after the winning Shutdown call's context ended, another Shutdown call returns nil
+/-- known finding F47 (witness): after the winning Shutdown call's context ended, another Shutdown call returns nil
 (`ShutdownReturnedNil`) although span 1 — ended before either call — has not been handed to the exporter, and the
 exporter is entered afterwards. -/
 theorem bsp_shutdown_timeout_late_nil_witness :
@@ -740,7 +742,7 @@ theorem bsp_shutdown_timeout_late_nil_witness :
   refine ⟨by decide, Or.inr ⟨⟨1, [1], true⟩, by decide, rfl, rfl⟩, by decide, by decide, by decide, by decide, by decide⟩
 
 /-- S4 and S5 for every nil return of a Shutdown call, without the hypothesis that the winning call's context did not
-end — NOT a theorem of the current code (known finding F44) -/
+end — NOT a theorem of the current code (known finding F47) -/
 def bsp_shutdown_nil_return_full_statement : Prop :=
   ∀ (cap maxB : Nat) (blocking : Bool), 1 ≤ maxB → ∀ s, Reachable cap maxB blocking s →
     ∀ pre, ShutdownReturnedNil s pre → s.w = .exited ∧ ∀ id ∈ s.sdPre, id ∈ s.exported.flatten ∨ id ∈ s.droppedIds
@@ -753,7 +755,7 @@ theorem bsp_shutdown_nil_return_full_statement_refuted : ¬ bsp_shutdown_nil_ret
   rw [hw] at h1
   cases h1
 
-/-- the F44 classification is tight: a Shutdown call other than the winner returns nil before the winner's once-function
+/-- the F47 classification is tight: a Shutdown call other than the winner returns nil before the winner's once-function
 has returned nil only if the winner's context has ended (`ShutdownTimedOut_applies`) — otherwise every nil return has
 all the guarantees (`shutdown_returned_done`, `bsp_quiet_after_shutdown`, `bsp_shutdown_delivers`). -/
 theorem bsp_shutdown_early_nil_implies_timeout (hpos : 1 ≤ maxB) (s : St) (h : Reachable cap maxB blocking s)
@@ -899,5 +901,126 @@ example : ∃ s s', run (init 4 2 false) [.accept 1, .send 1, .accept 2, .send 2
            .wExportStart, .exportEnd false] = 0 := by
   refine ⟨_, _, rfl, rfl, ?_⟩
   decide
+
+/-! ### Known finding F47 at the level of histories -/
+
+/-- the F47 classification cannot hide anything else — for ANY history (any scanner state): the oracle newly raises its
+F47 flag only at a nil return of a Shutdown call, only after some Shutdown call has returned an error (only the call
+that won `stopOnce` can: its context ended) and before the exporter's Shutdown has ended; the step adds no violated
+clause and does not mark Shutdown as returned (so S4 is not applied to the exports of the drain that is still running).
+Every clause that does not depend on a nil return — S1, S2, S3 (overlap, exporter Shutdown during an export, export
+after the exporter's Shutdown), S6 — is judged as before, and nil returns after the exporter's Shutdown are judged in
+full. -/
+theorem hist_f47_only_after_error_return (bl : Bool) (d : Nat) (c : Spec.Scan) (ev : Spec.Ev)
+    (hnew : (Spec.scanStep bl d c ev).f47 = true) (hold : c.f47 = false) :
+    ev = .sdReturned true ∧ c.sdErr = true ∧ c.expShutdownDone = false ∧ (Spec.scanStep bl d c ev).bad = c.bad ∧
+    (Spec.scanStep bl d c ev).sdReturnedOk = c.sdReturnedOk :=
+  scanStep_f47_new bl d c ev hnew hold
+
+/-- F47 at the level of the model's histories — for EVERY history of the model (runs with Shutdown contexts that end
+included): the scanner's "a Shutdown call returned an error" flag is the model's `sdRetErr`, and the oracle raises its
+F47 flag only if the winning call's context has ended in that run (`ShutdownTimedOut_applies`). -/
+theorem bsp_model_history_f47_only_timeout (s : St) (h : List Spec.Ev) (hr : ReachableH cap maxB blocking s h)
+    (bl : Bool) (dropped : Nat) :
+    (h.foldl (Spec.scanStep bl dropped) {}).sdErr = s.sdRetErr ∧
+    (Spec.histF47 bl dropped h = true → ShutdownTimedOut_applies s = true) := by
+  have he := scan_sdErr_eq hr bl dropped
+  refine ⟨he, ?_⟩
+  intro hf
+  have := foldl_f47_inv bl dropped h {} (by simp) hf
+  rw [he] at this
+  exact this
+
+/-- non-vacuity for F47: the history of `timeoutLateNilSchedule` — the winning call returns an error, the second call
+returns nil at once, the export of span 1 follows: the oracle raises its F47 flag and reports no violated clause; and
+the history of the run in which the drain completes before a further call returns nil raises nothing; after the
+exporter's Shutdown a nil return is judged in full again (a missing span is S5, a later export S3 and S4). -/
+example : ∃ r, runH (init 4 1 false) [] timeoutLateNilSchedule = some r ∧
+    r.2 = [.ended 1, .sdCalled, .sdReturned false, .sdCalled, .sdReturned true, .exportStart [1]] ∧
+    Spec.histJudge 1 false 0 r.2 = ([], false) ∧ Spec.histF47 false 0 r.2 = true ∧
+    Spec.histF47 false 0 [.ended 1, .sdCalled, .sdReturned false, .exportStart [1], .exportEnd, .expShutdownStart,
+      .expShutdownEnd, .sdCalled, .sdReturned true] = false ∧
+    Spec.histJudge 1 false 0 [.ended 1, .ended 2, .sdCalled, .sdReturned false, .exportStart [1], .exportEnd,
+      .expShutdownStart, .expShutdownEnd, .sdCalled, .sdReturned true, .exportStart [2]] =
+      (["S3:export-after-exporter-shutdown", "S4:export-after-shutdown", "S5:shutdown"], false) := by
+  refine ⟨_, rfl, ?_⟩
+  decide
+
+/-! ### Liveness over infinite runs -/
+
+/-- every accepted span is eventually exported or dropped — infinite runs. `σ`/`lb` is an infinite run of the LTS from a
+reachable state (any interleaving of all threads). Hypotheses: (finite load) from some index `N` on no step offers new
+work to the worker (`load = 0`: no span or flush marker enters the queue, no ForceFlush export starts, the batch timer
+fires only when the worker is otherwise idle with a non-empty batch); (fairness towards the worker) infinitely often
+the step taken is a disciplined worker-side step, or none is enabled. Conclusion: for every index `n` there is a later
+index `m` at which no worker-side step is enabled, i.e. (`bsp_worker_quiescent_delivered`) every span whose `End` has
+returned by then is in the exporter's log or counted as dropped — or the worker has exited after a Shutdown and what
+remains are late spans of F41. The variant is `workPot`: from `N` on it never increases and every disciplined
+worker-side step decreases it (`work_step`). -/
+theorem bsp_fair_run_delivers (hpos : 1 ≤ maxB) (σ : Nat → St) (lb : Nat → Lbl)
+    (h0 : Reachable cap maxB blocking (σ 0)) (hrun : ∀ n, step (σ n) (lb n) = some (σ (n + 1)))
+    (N : Nat) (hload : ∀ n, N ≤ n → load (σ n) (lb n) = 0)
+    (hfair : ∀ n, ∃ m, n ≤ m ∧ (fairWorker (σ m) (lb m) = true ∨ WorkerQuiescent (σ m))) :
+    ∀ n, ∃ m, n ≤ m ∧ WorkerQuiescent (σ m) ∧
+      (((σ m).w = .run ∧ (σ m).queue = [] ∧ (σ m).busy = none ∧
+        ∀ id ∈ (σ m).seen, id ∈ (σ m).exported.flatten ∨ id ∈ (σ m).droppedIds) ∨
+      ((σ m).w = .exited ∧ (σ m).busy = none ∧
+        ∀ id ∈ (σ m).seen, id ∈ (σ m).exported.flatten ∨ id ∈ (σ m).droppedIds ∨
+          (LateEnd_applies (σ m) = true ∧ id ∈ spansOf (σ m).queue))) := by
+  have hreach : ∀ n, Reachable cap maxB blocking (σ n) := by
+    intro n
+    induction n with
+    | zero => exact h0
+    | succ k ih => exact Reachable.step (lb k) ih (hrun k)
+  have hI : ∀ n, Inv (σ n) := fun n => inv_reachable cap maxB blocking hpos _ (hreach n)
+  have hstep : ∀ n, N ≤ n →
+      workPot (σ (n + 1)) + (if fairWorker (σ n) (lb n) then 1 else 0) ≤ workPot (σ n) := by
+    intro n hn
+    have := work_step (σ n) (σ (n + 1)) (lb n) (hI n).b (hI n).c (hrun n)
+    rw [hload n hn] at this
+    exact this
+  have hmono : ∀ k n, N ≤ n → workPot (σ (n + k)) ≤ workPot (σ n) := by
+    intro k
+    induction k with
+    | zero => intro n _; exact Nat.le_refl _
+    | succ k ih =>
+      intro n hn
+      have h1 := hstep (n + k) (by omega)
+      have h2 := ih n hn
+      have : n + (k + 1) = n + k + 1 := by omega
+      rw [this]
+      omega
+  -- from every index at or after N a quiescent state is reached: induction on the variant
+  have key : ∀ p n, N ≤ n → workPot (σ n) ≤ p → ∃ m, n ≤ m ∧ WorkerQuiescent (σ m) := by
+    intro p
+    induction p with
+    | zero =>
+      intro n hn hp
+      obtain ⟨m, hm, hf⟩ := hfair n
+      rcases hf with hf | hf
+      · exfalso
+        have h1 := hstep m (by omega)
+        have h2 := hmono (m - n) n hn
+        have : n + (m - n) = m := by omega
+        rw [this] at h2
+        simp only [hf, if_true] at h1
+        omega
+      · exact ⟨m, hm, hf⟩
+    | succ p ih =>
+      intro n hn hp
+      obtain ⟨m, hm, hf⟩ := hfair n
+      rcases hf with hf | hf
+      · have h1 := hstep m (by omega)
+        have h2 := hmono (m - n) n hn
+        have : n + (m - n) = m := by omega
+        rw [this] at h2
+        simp only [hf, if_true] at h1
+        obtain ⟨m', hm', hq⟩ := ih (m + 1) (by omega) (by omega)
+        exact ⟨m', by omega, hq⟩
+      · exact ⟨m, hm, hf⟩
+  intro n
+  obtain ⟨m, hm, hq⟩ := key (workPot (σ (max n N))) (max n N) (Nat.le_max_right n N) (Nat.le_refl _)
+  refine ⟨m, by have := Nat.le_max_left n N; omega, hq, ?_⟩
+  exact bsp_worker_quiescent_delivered hpos (σ m) (hreach m) hq
 
 end Otel.C01
